@@ -1,6 +1,116 @@
 package main
 
-import "golang.org/x/tools/go/ssa"
+// Houdini-style inference of simple loop invariants: candidates from fixed templates over the loop's
+// header phis are assumed together and repeatedly pruned until every survivor is proved inductive.
+// Only proved candidates are used; a loop whose safety does not follow stays unproved.
 
-// houdini: candidate loop invariants from templates, kept only if proved inductive (filled in later).
-func (ctx *Ctx) houdini(fn *ssa.Function, ct *Contract, work string) map[int][]*Clause { return nil }
+import (
+	"fmt"
+	"go/types"
+	"math/big"
+	"os"
+	"path/filepath"
+	"strings"
+
+	"golang.org/x/tools/go/ssa"
+)
+
+func houdiniCandidates(fn *ssa.Function) map[int][]*Clause {
+	out := map[int][]*Clause{}
+	loops := findLoops(fn)
+	for _, li := range loops {
+		var ints, slices []string
+		for _, in := range li.Header.Instrs {
+			p, ok := in.(*ssa.Phi)
+			if !ok {
+				break
+			}
+			_, isInt := isIntType(p.Type())
+			_, isSlice := under(p.Type()).(*types.Slice)
+			switch {
+			case isInt && strings.HasPrefix(p.Comment, "rangeindex"):
+				out[li.Ordinal] = append(out[li.Ordinal], &Clause{Text: "__iter >= -1 && __iter <= 1099511627776 (auto)",
+					Expr: &SBinary{"&&", &SBinary{">=", &SIdent{"__iter"}, &SUnary{"-", &SLit{big.NewInt(1)}}}, &SBinary{"<=", &SIdent{"__iter"}, &SLit{pow2(40)}}}})
+			case isInt && strings.HasPrefix(p.Comment, "rangeint"):
+				out[li.Ordinal] = append(out[li.Ordinal], &Clause{Text: "__iter >= 0 (auto)", Expr: &SBinary{">=", &SIdent{"__iter"}, &SLit{big.NewInt(0)}}})
+			case isInt && isIdent(p.Comment):
+				ints = append(ints, p.Comment)
+				out[li.Ordinal] = append(out[li.Ordinal], &Clause{Text: p.Comment + " >= 0 (auto)", Expr: &SBinary{">=", &SIdent{p.Comment}, &SLit{big.NewInt(0)}}})
+			case isSlice && isIdent(p.Comment):
+				slices = append(slices, p.Comment)
+			}
+		}
+		for _, s := range slices {
+			for _, x := range ints {
+				e := &SBinary{">=", &SCall{Fun: &SIdent{"len"}, Args: []SExpr{&SIdent{s}}}, &SCall{Fun: &SIdent{"int"}, Args: []SExpr{&SIdent{x}}}}
+				out[li.Ordinal] = append(out[li.Ordinal], &Clause{Text: fmt.Sprintf("len(%s) >= int(%s) (auto)", s, x), Expr: e})
+			}
+		}
+	}
+	return out
+}
+
+func isIdent(s string) bool {
+	if s == "" {
+		return false
+	}
+	for i, r := range s {
+		if !(r == '_' || r >= 'a' && r <= 'z' || r >= 'A' && r <= 'Z' || (i > 0 && r >= '0' && r <= '9')) {
+			return false
+		}
+	}
+	return true
+}
+
+func (ctx *Ctx) houdini(fn *ssa.Function, ct *Contract, work string) map[int][]*Clause {
+	cands := houdiniCandidates(fn)
+	n := 0
+	for _, cs := range cands {
+		n += len(cs)
+	}
+	if n == 0 {
+		return nil
+	}
+	dir := filepath.Join(work, "houdini-"+sanitize(fn.Name()))
+	os.MkdirAll(dir, 0o755)
+	for round := 0; round < 8; round++ {
+		vc := ctx.genFunc(fn, ct, cands)
+		// candidates whose evaluation fails (name not in scope, ...) are dropped outright
+		var sel []*Obligation
+		for _, o := range vc.Obls {
+			if (o.Kind == "inv-init" || o.Kind == "inv-keep") && strings.HasSuffix(o.Src, "(auto)") {
+				sel = append(sel, o)
+			}
+		}
+		bad := map[string]bool{}
+		for _, e := range vc.SpecErrs {
+			for ord, cs := range cands {
+				for _, c := range cs {
+					if strings.Contains(e, fmt.Sprintf("%q", c.Text)) {
+						bad[fmt.Sprintf("loop %d: %s", ord, c.Text)] = true
+					}
+				}
+			}
+		}
+		sub := &FuncVC{Key: vc.Key, Fn: vc.Fn, Contract: vc.Contract, Gen: vc.Gen, Lines: vc.Lines, Obls: sel, ParamInfo: vc.ParamInfo}
+		solveAll([]*FuncVC{sub}, SolveOpts{TimeoutS: 3, WorkDir: dir, Workers: 8, NoModel: true}, false)
+		for _, o := range sel {
+			if o.Status != "unsat" {
+				bad[o.Src] = true
+			}
+		}
+		if len(bad) == 0 {
+			return cands
+		}
+		next := map[int][]*Clause{}
+		for ord, cs := range cands {
+			for _, c := range cs {
+				if !bad[fmt.Sprintf("loop %d: %s", ord, c.Text)] {
+					next[ord] = append(next[ord], c)
+				}
+			}
+		}
+		cands = next
+	}
+	return nil
+}
